@@ -1,4 +1,5 @@
 import Swim.Model.Acks
+import Swim.Gen.Facts
 /-!
 # C19  Probe acknowledgements are correctly correlated, relayed and cleaned up
 -/
@@ -47,6 +48,66 @@ theorem C19_unanswered_suspects (c : Cfg) (score : Nat) (evs : List Ev) (exp : N
   split
   · split <;> omega
   · omega
+
+/-- the failure branch of a probe never lowers the score -/
+theorem probeOutcome_fail_nonneg (c : Cfg) (score : Nat) (evs : List Ev) (exp : Nat) (tcp : Bool)
+    (h : (probeOutcome c score evs exp tcp).1 = true) : 0 ≤ (probeOutcome c score evs exp tcp).2 := by
+  unfold probeOutcome at *
+  by_cases ha : answered c score evs = true
+  · simp [ha] at h
+  · by_cases ht : tcp = true
+    · simp [ha, ht] at h
+    · simp only [ha, ht, Bool.false_eq_true, if_false]
+      split
+      · split <;> omega
+      · omega
+
+/-- a probe that is not in its failure branch was answered -/
+theorem probeOutcome_ok_answered (c : Cfg) (score : Nat) (evs : List Ev) (exp : Nat) (tcp : Bool)
+    (h : (probeOutcome c score evs exp tcp).1 = false) : answered c score evs = true ∨ tcp = true := by
+  unfold probeOutcome at h
+  by_cases ha : answered c score evs = true
+  · exact Or.inl ha
+  · by_cases ht : tcp = true
+    · exact Or.inr ht
+    · simp [ha, ht] at h
+
+/-- **score falls only on an answered probe**, the send of the ping included: whatever happens to the
+direct ping (sent, refused locally, refused by the remote side), a negative awareness delta means
+that the ping did leave and that an acknowledgement with the probe's own sequence number arrived
+before the deadline or the TCP fallback made contact. -/
+theorem C19_score_falls_only_on_answer (sent : Sent) (c : Cfg) (score : Nat) (evs : List Ev) (exp : Nat) (tcp : Bool)
+    (h : (probeWithSend sent c score evs exp tcp).2 < 0) :
+    sent = .ok ∧ (answered c score evs = true ∨ tcp = true) := by
+  cases sent with
+  | ok =>
+    refine ⟨rfl, ?_⟩
+    simp only [probeWithSend] at h
+    cases h1 : (probeOutcome c score evs exp tcp).1 with
+    | false => exact probeOutcome_ok_answered c score evs exp tcp h1
+    | true => have := probeOutcome_fail_nonneg c score evs exp tcp h1; omega
+  | localError => simp [probeWithSend] at h
+  | remoteError =>
+    simp only [probeWithSend] at h
+    cases h1 : (probeOutcome c score evs exp tcp).1 with
+    | false => simp [h1] at h
+    | true =>
+      simp only [h1, if_true] at h
+      have := probeOutcome_fail_nonneg c score evs exp tcp h1; omega
+
+/-- **fresh sequence numbers (fact theorem).** `nextSeqNo` and `nextIncarnation` are one atomic
+read-modify-write whose result is returned: two concurrent probes can never be registered under
+the same number (the model's pending table is keyed by it). Regenerated from the source. -/
+theorem C19_seqno_single_atomic_step :
+    Gen.counterBodies = [("Memberlist.nextIncarnation", ["return m.incarnation.Add(1)"]),
+      ("Memberlist.nextSeqNo", ["return atomic.AddUint32(&m.sequenceNum, 1)"])] := by decide
+
+/-- a ping that could not be sent never marks the target and, refused locally, changes nothing at all -/
+theorem C19_local_send_error_is_inert (c : Cfg) (score : Nat) (evs : List Ev) (exp : Nat) (tcp : Bool) :
+    probeWithSend .localError c score evs exp tcp = (false, 0) := rfl
+
+example : (probeWithSend .remoteError { probeInterval := 1000, probeTimeout := 500, awarenessMax := 8, indirectChecks := 0 } 2 [] 0 false) = (true, 1) := by
+  decide
 
 /-- **score_range.** The health score always stays within [0, max-1]. -/
 theorem C19_score_range (max score : Nat) (delta : Int) (hm : 1 ≤ max) :
